@@ -130,6 +130,7 @@ def build(repo: str) -> Program:
         '_mailbox_counter': 'int',
         'most_recent_read_submit': 'opt[RuntimeAddress]',
         'read_receipt_mutex': 'sink[mutex]',
+        '_mailbox_mutex': 'sink[boxmutex]',
     })
     p.finish()
 
